@@ -369,7 +369,7 @@ func runCheck(p *PropDef, tier string, seed int64) int {
 			real = append(real, o)
 		}
 	}
-	solveAll(real, opts)
+	solveRobust(real, opts)
 	copts := opts
 	copts.TimeoutS = 2
 	copts.All = false
